@@ -57,6 +57,10 @@ class App:
     def __call__(self, environ, start_response):
         self.calls += 1
         c = self.case
+        if c.get("status_bytes"):
+            # an application that still passes a byte string as status (not a native string): whatever the server does with the
+            # type, CR / LF / NUL in it stay out of the head
+            c = dict(c, status=c["status"].encode("latin-1", "replace"))
         hdrs = [(n, v) for n, v in c["headers"]]
         if c.get("types"):
             for i, t in c["types"]:
@@ -181,6 +185,13 @@ def judge(case, out, app):
         return v, "hung"
     if not data:
         return v, "nothing-sent"
+    if case.get("status_bytes"):
+        raw = case["status"].encode("latin-1", "replace")
+        if any(ch in raw for ch in b"\r\n\0") and raw in data:
+            v.append(("refused-text-on-wire/status-given-as-bytes", "start_response(%r, ...) - the status as a byte string with CR / LF / NUL - "
+                      "and the client received it verbatim: %s" % (raw, hexs(data[:300]))))
+            return v, "accepted"
+        return v, "bytes-status-no-raw-control-text"
     end = data.find(b"\r\n\r\n")
     if end < 0:
         v.append(("head-not-terminated", hexs(data[:200])))
@@ -486,7 +497,11 @@ def random_case(rng):
     if rng.random() < 0.12:
         c["late"] = rng.choice([["X-Late", "v\r\nSet-Cookie: lateZq=1"], ["X-Late\r\nX-lateZq", "1"], ["X-Late", "lateZq\0"],
                                 ["Transfer-Encoding", "lateZq"], ["X-Late", "lateZq"]])
-    if not c["catch"] and rng.random() < 0.1:
+    if rng.random() < 0.07:
+        c["status_bytes"] = True
+        c["retry"] = c["catch"] = False
+        c.pop("late", None)
+    if not c["catch"] and not c.get("status_bytes") and rng.random() < 0.1:
         c["after_output"] = rng.choice([b"", b"", b"x", b"first-Zq"]).hex()
         c.pop("late", None)
     if c["catch"]:
@@ -513,6 +528,7 @@ def random_case(rng):
         c["types"] = None
         c.pop("late", None)
         c.pop("after_output", None)
+        c.pop("status_bytes", None)
     return c
 
 
@@ -531,6 +547,8 @@ def run_case(run, e2, harnesses, case):
         run.count("second_call_after_output_refused")
     exp = expected_lines(case, case["version"])[0]
     run.count("expected/" + exp)
+    if case.get("status_bytes") and any(ch in case["status"] for ch in "\r\n\0") and not verdicts:
+        run.count("status_as_bytes_with_control_text_kept_out_of_the_head")
     if exp == "refuse" and outcome in ("refused-500", "nothing-sent"):
         run.count("must_refuse_refused")
     if exp == "ok" and outcome == "accepted" and not verdicts and not case.get("interim"):
@@ -595,7 +613,7 @@ def shard(sh):
 
 def main(tier, seed):
     run = Run(PROP, tier, seed, "exploration", RULE)
-    run.require("must_refuse_refused", "second_call_after_output_refused", "accepted_head_exact", "expected/either", "outcome/refused-500",
+    run.require("must_refuse_refused", "second_call_after_output_refused", "status_as_bytes_with_control_text_kept_out_of_the_head", "accepted_head_exact", "expected/either", "outcome/refused-500",
                 "tolerance_switch_cases/strip", "tolerance_switch_cases/lenient", "name_with_trailing_blank_refused_under_strip_header_spaces",
                 "interim_sequences", "interim_sequences_must_refuse", "interim_must_refuse_refused")
     q = tier == "quick"
